@@ -11,10 +11,9 @@ mut("c01-trigger-before-store", ["C01"], "result-then-trigger",
 mut("c01-join-trigger-take-before-state", ["C01"], "publish-then-wake",
     ("src/join.rs", "        self.state.store(false, Ordering::Release);\n        if let Some(w) = self.to_wake.take() {\n            w.unpark();\n        }",
      "        let w = self.to_wake.take();\n        self.state.store(false, Ordering::Release);\n        if let Some(w) = w {\n            w.unpark();\n        }"))
-mut("c01-join-wait-no-recheck", ["C01"], "Join::wait",
-    ("src/join.rs", "            if self.state.load(Ordering::Acquire) {\n                // successfully register the blocker\n                cur.park(None).ok();\n            } else {\n                self.to_wake.take();\n            }",
-     "            cur.park(None).ok();"))
-mut("c01-cancel-schedules-on-worker0", ["C01"], "id-provenance",
+mut("c01-join-wait-single-park", ["C01", "C14"], "return-only-when-done",
+    ("src/join.rs", "        while self.state.load(Ordering::Acquire) {\n            let cur = Blocker::current();", "        if self.state.load(Ordering::Acquire) {\n            let cur = Blocker::current();"))
+mut("c01-cancel-schedules-on-worker0", ["C01"], "schedule_with_id|caller",
     ("src/cancel.rs", "                get_scheduler().schedule(co);", "                get_scheduler().schedule_with_id(co, 0);"))
 mut("c01-global-wakeup-before-push", ["C01"], "push-then-wakeup",
     ("src/scheduler.rs", "        let thread_id = id.rem_euclid(self.workers);\n        // println!(\"Scheduling to {thread_id}\");\n        let global = unsafe { self.global_queues.get_unchecked(thread_id) };\n        global.push(co);\n        // signal one waiting thread if any\n        self.get_selector().wakeup(thread_id);",
@@ -47,8 +46,8 @@ ben("c02-park-if-let-to-match", ["C02"],
 
 # ---- C05
 mut("c05-count-before-enqueue", ["C05"], "enqueue-then-count",
-    ("src/sync/mutex.rs", "        self.to_wake.push(cur.clone());\n        // inc the cnt, if it's the first grab, unpark the first waiter\n        if self.cnt.fetch_add(1, Ordering::SeqCst) == 0 {",
-     "        let first = self.cnt.fetch_add(1, Ordering::SeqCst) == 0;\n        self.to_wake.push(cur.clone());\n        if first {"))
+    ("src/sync/mutex.rs", "            self.to_wake.push(cur.clone());\n            // inc the cnt, if it's the first grab, unpark the first waiter\n            if self.cnt.fetch_add(1, Ordering::SeqCst) == 0 {",
+     "            let first = self.cnt.fetch_add(1, Ordering::SeqCst) == 0;\n            self.to_wake.push(cur.clone());\n            if first {"))
 mut("c05-waker-drops-forward", ["C05"], "waker/release-forwards",
     ("src/sync/mutex.rs", "    fn unpark_one(&self, w: &SyncBlocker) {\n        w.unpark();\n        if w.take_release() {\n            self.unlock();\n        }\n    }",
      "    fn unpark_one(&self, w: &SyncBlocker) {\n        w.unpark();\n        w.take_release();\n    }"))
@@ -65,6 +64,138 @@ mut("c05-guard-drop-skips-unlock-when-poisoned", ["C05"], "drop-unlocks",
 ben("c05-hoist-blocker", ["C05"],
     ("src/sync/mutex.rs", "    fn unpark_one(&self, w: &SyncBlocker) {\n        w.unpark();\n        if w.take_release() {\n            self.unlock();\n        }\n    }",
      "    fn unpark_one(&self, w: &SyncBlocker) {\n        w.unpark();\n        let released = w.take_release();\n        if released {\n            self.unlock();\n        }\n    }"))
+
+
+# ---- reverts of the fix: commits (each must make the owning check fire again)
+mut("revert-f1-atomic-dur", ["C08", "C18"], "encode/",
+    ("src/sync/atomic_dur.rs", "            let ms = d.as_nanos().div_ceil(1_000_000);\n            usize::try_from(ms).unwrap_or(usize::MAX).max(1)", "            d.as_millis() as usize"))
+mut("c08-encode-micros-decode-millis", ["C08"], "C-unit-agrees",
+    ("src/sync/atomic_dur.rs", "            let ms = d.as_nanos().div_ceil(1_000_000);", "            let ms = d.as_nanos().div_ceil(1_000);"))
+mut("revert-f2-try-read-count", ["C12"], "try_read/count-before-guard",
+    ("src/sync/rwlock.rs", "        *r += 1;\n        Ok(RwLockReadGuard::new(self)?)", "        let g = RwLockReadGuard::new(self)?;\n        *r += 1;\n        Ok(g)"))
+mut("revert-f3-lost-cas-poisoned", ["C12"], "acquired-variants-behind-cas",
+    ("src/sync/rwlock.rs", "                Err(_) => Err(TryLockError::WouldBlock),", "                Err(_) => {\n                    if self.poison.get() {\n                        Err(TryLockError::Poisoned(std::sync::PoisonError::new(())))\n                    } else {\n                        Err(TryLockError::WouldBlock)\n                    }\n                }"))
+mut("revert-f4-spsc-recheck", ["C07"], "spsc/co-",
+    ("src/sync/spsc.rs", "        if !self.queue.queue.is_empty() || self.queue.channels.load(Ordering::Acquire) == 0 {", "        if !self.queue.queue.is_empty() {"))
+mut("revert-f5-mpmc-repost", ["C07"], "permit-returned",
+    ("src/sync/mpmc.rs", "                0 => {\n                    // we took the disconnect permit, put it back so that\n                    // every other/later receiver would also see it\n                    self.sem.post();\n                    Err(RecvTimeoutError::Disconnected)\n                }", "                0 => Err(RecvTimeoutError::Disconnected),"))
+mut("revert-f13-mpmc-try-recv-recheck", ["C07"], "mpmc/try_recv/drain-before-disconnected",
+    ("src/sync/mpmc.rs", "            if !self.sem.try_wait() {\n                return Err(TryRecvError::Disconnected);\n            }", "            return Err(TryRecvError::Disconnected);"))
+mut("revert-f6-scoped-join-guard", ["C14"], "scope/join-cancel-masked",
+    ("src/scoped.rs", "                let _g = CancelDisableGuard::new();\n                handle.join()", "                handle.join()"))
+mut("revert-f6-cqueue-drop-guard", ["C14"], "cqueue/drain-cancel-masked",
+    ("src/cqueue.rs", "        let _g = CancelDisableGuard::new();\n", ""))
+mut("revert-f10-eventsender-yield-back", ["C15"], "consume-after:EventSender",
+    ("src/cqueue.rs", "        // and it would be seen by the next coroutine that reuses this stack\n        get_co_para();", "        // and it would be seen by the next coroutine that reuses this stack"))
+mut("revert-f10-rawioblock-yield-back", ["C15"], "consume-after:RawIoBlock",
+    ("src/io/sys/unix/wait_io.rs", "        // or it would be seen by the next park/io call on this stack\n        get_co_para();", "        // or it would be seen by the next park/io call on this stack"))
+mut("revert-f12-spsc-wait-kernel", ["C09"], "wait-kernel-starts-false",
+    ("src/sync/spsc.rs", "            wait_kernel: AtomicBool::new(false),", "            wait_kernel: AtomicBool::new(true),"))
+mut("revert-f14-mutex-repark", ["C05", "C09"], "H8-no-repark",
+    ("src/sync/mutex.rs", "                    // start over with a new blocker\n                    if b_ignore {\n                        continue;\n                    }", "                    if b_ignore {\n                        if cur.park(None).is_ok() {\n                            break;\n                        }\n                        continue;\n                    }"))
+mut("revert-f15a-finished-drain", ["C14", "C16"], "cqueue/drain-before-finished",
+    ("src/cqueue.rs", "                        match self.ev_queue.pop() {\n                            Some(mut ev) => run_ev!(ev),\n                            None => return Err(PollError::Finished),\n                        }", "                        return Err(PollError::Finished);"))
+mut("revert-f15b-check-panic-lock", ["C13"], "cqueue/lock-released-before-join",
+    ("src/cqueue.rs", "        let handle = self.selectors.lock().unwrap()[id]\n            .take()\n            .expect(\"join handler not set\");\n        // always join, also after a panic was already reported: the Done event is sent by\n        // the select coroutine itself while it's still running with a ref to this cqueue,\n        // only the join tells that it's really finished\n        match handle.join() {",
+     "        match self.selectors.lock().unwrap()[id]\n            .take()\n            .expect(\"join handler not set\")\n            .join()\n        {"))
+mut("revert-f17-add-timer-wrap", ["C08"], "interval-no-wrap",
+    ("src/timeout_list.rs", "        let interval = u64::try_from(dur.as_nanos()).unwrap_or(u64::MAX);", "        let interval = dur.as_nanos() as u64;"))
+mut("revert-f17-add-timer-overflow", ["C08"], "expiry-saturates",
+    ("src/timeout_list.rs", "        let time = now().saturating_add(interval);", "        let time = now() + interval;"))
+
+# ---- C03 / C04 / C19
+mut("c03-mpsc-ready-before-write", ["C03"], "mpsc/write-then-ready",
+    ("may_queue/src/mpsc.rs", "            data.value.get().write(MaybeUninit::new(v));\n\n            std::sync::atomic::fence(Ordering::Release);\n            // mark the data ready\n            data.ready.store(1, Ordering::Release);",
+     "            std::sync::atomic::fence(Ordering::Release);\n            data.ready.store(1, Ordering::Release);\n            data.value.get().write(MaybeUninit::new(v));"))
+mut("c03-mpsc-ready-relaxed-no-fence", ["C03"], "mpsc/ready-store",
+    ("may_queue/src/mpsc.rs", "            std::sync::atomic::fence(Ordering::Release);\n            // mark the data ready\n            data.ready.store(1, Ordering::Release);", "            data.ready.store(1, Ordering::Relaxed);"))
+mut("c03-mpsc-pop-early-none", ["C03"], "mpsc/none-only-if-empty",
+    ("may_queue/src/mpsc.rs", "                if pop_index >= self.push_index() {\n                    return None;\n                } else {\n                    head.get(id)\n                }", "                return None;"))
+mut("c03-spsc-publish-before-write", ["C03"], "spsc/write-then-publish",
+    ("may_queue/src/spsc.rs", "        // store the data\n        tail.set(push_index, v);\n", "        self.tail.index.store(push_index.wrapping_add(1), Ordering::Release);\n        tail.set(push_index, v);\n"))
+mut("c03-spsc-pop-load-relaxed", ["C03"], "spsc/pop-load-acq",
+    ("may_queue/src/spsc.rs", "    pub fn pop(&self) -> Option<T> {\n        let index = unsafe { self.head.index.unsync_load() };\n        let push_index = self.tail.index.load(Ordering::Acquire);", "    pub fn pop(&self) -> Option<T> {\n        let index = unsafe { self.head.index.unsync_load() };\n        let push_index = self.tail.index.load(Ordering::Relaxed);"))
+ben("c03-spsc-len-load-relaxed", ["C03"],
+    ("may_queue/src/spsc.rs", "        let pop_index = self.head.index.load(Ordering::Relaxed);\n        let push_index = self.tail.index.load(Ordering::Acquire);\n        push_index.wrapping_sub(pop_index)", "        let pop_index = self.head.index.load(Ordering::Relaxed);\n        let push_index = self.tail.index.load(Ordering::Relaxed);\n        push_index.wrapping_sub(pop_index)"))
+mut("c04-pop-no-wait-loop", ["C04"], "pop/read-behind-publish",
+    ("may_queue/src/spmc.rs", "                        while pop_index >= self.tail.index.load(Ordering::Acquire) {\n                            std::thread::sleep(std::time::Duration::from_millis(10));\n                        }\n                    }\n                    // get the data\n                    let v = block.get(id);\n\n                    if block.mark_slots_read(1) {\n                        // we need to free the old block\n                        let _unused_block = unsafe { Box::from_raw(block) };\n                    }\n                    return Some(v);\n                }\n                Err(i) => {\n                    head = i;\n                    backoff.spin();\n                    push_index",
+     "                    }\n                    // get the data\n                    let v = block.get(id);\n\n                    if block.mark_slots_read(1) {\n                        // we need to free the old block\n                        let _unused_block = unsafe { Box::from_raw(block) };\n                    }\n                    return Some(v);\n                }\n                Err(i) => {\n                    head = i;\n                    backoff.spin();\n                    push_index"))
+mut("c04-push-index-relaxed-no-fence", ["C04"], "tail-index-store",
+    ("may_queue/src/spmc.rs", "        // need this to make sure the data is stored before the index is updated\n        std::sync::atomic::fence(Ordering::Release);\n", ""),
+    ("may_queue/src/spmc.rs", "        // commit the push\n        self.tail.index.store(new_index, Ordering::Release);", "        // commit the push\n        self.tail.index.store(new_index, Ordering::Relaxed);"))
+mut("c19-push-publish-before-prev", ["C19"], "prev-then-publish",
+    ("may_queue/src/mpsc_list_v1.rs", "            (*node).prev = prev;\n            (*prev).next.store(node, Ordering::Release);", "            (*prev).next.store(node, Ordering::Release);\n            (*node).prev = prev;"))
+mut("c19-push-swap-relaxed", ["C19"], "head-swap",
+    ("may_queue/src/mpsc_list_v1.rs", "let prev = self.head.swap(node, Ordering::AcqRel);", "let prev = self.head.swap(node, Ordering::Relaxed);"))
+mut("c19-remove-ignores-null-next", ["C19"], "remove/",
+    ("may_queue/src/mpsc_list_v1.rs", "            if !next.is_null() {\n                // clear the link bit", "            if true {\n                // clear the link bit"))
+
+# ---- C06 / C07 / C10 / C11 / C16 / C17
+mut("c06-mpsc-wake-before-push", ["C06"], "mpsc/push-then-wake",
+    ("src/sync/mpsc.rs", "        self.queue.push(t);\n        if let Some(w) = self.to_wake.take() {\n            w.unpark();\n        }\n        Ok(())", "        let w = self.to_wake.take();\n        self.queue.push(t);\n        if let Some(w) = w {\n            w.unpark();\n        }\n        Ok(())"))
+mut("c06-mpmc-post-before-push", ["C06"], "mpmc/push-then-post",
+    ("src/sync/mpmc.rs", "        self.queue.push(t);\n        self.sem.post();", "        self.sem.post();\n        self.queue.push(t);"))
+mut("c07-mpsc-last-sender-no-wake", ["C07"], "mpsc/last-sender-wakes",
+    ("src/sync/mpsc.rs", "            1 => self.to_wake.take().map(|w| w.unpark()).unwrap_or(()),", "            1 => {}"))
+mut("c10-sem-count-before-enqueue", ["C10"], "enqueue-then-count",
+    ("src/sync/semphore.rs", "        self.to_wake.push(cur.clone());\n        // dec the cnt, if it's positive, unpark one waiter\n        if self.cnt.fetch_sub(1, Ordering::SeqCst) > 0 {\n            self.wakeup_one();\n        }",
+     "        let late = self.cnt.fetch_sub(1, Ordering::SeqCst) > 0;\n        self.to_wake.push(cur.clone());\n        if late {\n            self.wakeup_one();\n        }"))
+mut("c10-syncflag-reset-on-timeout", ["C10"], "flag/writers",
+    ("src/sync/sync_flag.rs", "                if err == ParkError::Canceled {\n                    trigger_cancel_panic();\n                }\n                false", "                if err == ParkError::Canceled {\n                    trigger_cancel_panic();\n                }\n                self.cnt.fetch_add(1, Ordering::SeqCst);\n                false"))
+mut("c11-unlock-before-enqueue", ["C11"], "enqueue-then-unlock",
+    ("src/sync/condvar.rs", "        self.to_wake.push(cur.clone());\n\n        // unlock the mutex to let other continue\n        mutex::unlock_mutex(lock);", "        // unlock the mutex to let other continue\n        mutex::unlock_mutex(lock);\n        self.to_wake.push(cur.clone());"))
+mut("c11-early-return-without-enable", ["C11"], "cancel-region-balanced",
+    ("src/sync/condvar.rs", "        // drop the parker here without panic!", "        if ret.is_ok() {\n            return ret;\n        }\n        // drop the parker here without panic!"))
+mut("c11-barrier-notify-before-generation", ["C11"], "generation-then-notify",
+    ("src/sync/barrier.rs", "            lock.generation_id = lock.generation_id.wrapping_add(1);\n            self.cvar.notify_all();", "            self.cvar.notify_all();\n            lock.generation_id = lock.generation_id.wrapping_add(1);"))
+mut("c16-subscribe-wake-before-push", ["C16"], "subscribe/push-then-wake",
+    ("src/cqueue.rs", "    fn subscribe(&mut self, co: CoroutineImpl) {\n        self.cqueue.ev_queue.push(Event {", "    fn subscribe(&mut self, co: CoroutineImpl) {\n        let w0 = self.cqueue.to_wake.take();\n        if let Some(w) = w0 {\n            w.unpark();\n        }\n        self.cqueue.ev_queue.push(Event {"))
+mut("c16-sender-drop-count-before-done", ["C16"], "sender-drop/done-then-count",
+    ("src/cqueue.rs", "    fn drop(&mut self) {\n        self.cqueue.ev_queue.push(Event {", "    fn drop(&mut self) {\n        self.cqueue.cnt.fetch_sub(1, Ordering::Release);\n        self.cqueue.cnt.fetch_add(1, Ordering::Release);\n        self.cqueue.ev_queue.push(Event {"))
+mut("c17-socket-write-clear-after-syscall", ["C17"], "done/",
+    ("src/io/sys/unix/net/socket_write.rs", "            // clear the io_flag\n            self.io_data.io_flag.store(0, Ordering::Relaxed);\n", ""),
+    ("src/io/sys/unix/net/socket_write.rs", "            if self.io_data.io_flag.load(Ordering::Relaxed) != 0 {", "            if self.io_data.io_flag.swap(0, Ordering::Relaxed) != 0 {"))
+mut("c17-udp-recv-subscribe-no-recheck", ["C17"], "subscribe:UdpRecvFrom",
+    ("src/io/sys/unix/net/udp_recv_from.rs", "        if io_data.io_flag.load(Ordering::Acquire) != 0 {\n            #[allow(clippy::needless_return)]\n            return io_data.fast_schedule();\n        }\n", ""))
+mut("c17-add-fd-no-epollout", ["C17"], "epoll/add-fd",
+    ("src/io/sys/unix/epoll.rs", "            EpollFlags::EPOLLIN\n                | EpollFlags::EPOLLOUT\n                | EpollFlags::EPOLLRDHUP\n                | EpollFlags::EPOLLET,", "            EpollFlags::EPOLLIN | EpollFlags::EPOLLRDHUP | EpollFlags::EPOLLET,"))
+mut("c18-timeout-handler-ignores-null", ["C18"], "handler/only-if-armed",
+    ("src/io/sys/unix/mod.rs", "    if data.event_data.is_null() {\n        return;\n    }\n", "    if data.event_data.is_null() {\n        log::trace!(\"stale io timer\");\n    }\n"))
+mut("c09-sleep-no-cancel-recheck", ["C09"], "cancel-registration:Sleep",
+    ("src/sleep.rs", "        // re-check the cancel status\n        if cancel.is_canceled() {\n            unsafe { cancel.cancel() };\n        }", ""))
+mut("c09-poison-ignores-cancel", ["C09", "C13"], "no-poison-on-cancel",
+    ("src/sync/poison.rs", "            if !is_canceled {\n                self.failed.store(1, Ordering::Relaxed);\n            }", "            let _ = is_canceled;\n            self.failed.store(1, Ordering::Relaxed);"))
+mut("c13-write-guard-skips-unlock-when-poisoning", ["C13", "C12"], "rw-guard-drop-unlocks|write-guard-drop-unlocks",
+    ("src/sync/rwlock.rs", "        self.__lock.poison.done(&self.__poison);\n        self.__lock.write_unlock();", "        self.__lock.poison.done(&self.__poison);\n        if !self.__lock.poison.get() {\n            self.__lock.write_unlock();\n        }"))
+mut("c14-scope-drop-no-join", ["C14"], "scope/drop-joins",
+    ("src/scoped.rs", "impl Drop for Scope<'_> {\n    fn drop(&mut self) {\n        self.drop_all()\n    }\n}", "impl Drop for Scope<'_> {\n    fn drop(&mut self) {}\n}"))
+mut("c15-check-cancel-no-consume", ["C15", "C09"], "check-cancel-always-consumes|consume-before-panic",
+    ("src/cancel.rs", "            // this would affect future new coroutine that reuse the instance\n            get_co_para();\n", "            // this would affect future new coroutine that reuse the instance\n"))
+
+# ---- benign edits
+ben("ben-mutex-unlock-seqcst-fence", ["C05"],
+    ("src/sync/mutex.rs", "        self.__lock.unlock();\n        // after release the lock we should sync the mem\n        fence(Ordering::SeqCst);", "        fence(Ordering::SeqCst);\n        self.__lock.unlock();\n        // after release the lock we should sync the mem\n        fence(Ordering::SeqCst);"))
+ben("ben-sem-hoist-cur", ["C10"],
+    ("src/sync/semphore.rs", "            .map(|w| {\n                w.unpark();\n                if w.take_release() {\n                    self.post();\n                }\n            })", "            .map(|w| {\n                w.unpark();\n                let rel = w.take_release();\n                if rel {\n                    self.post();\n                }\n            })"))
+ben("ben-mpsc-send-log", ["C06", "C07"],
+    ("src/sync/mpsc.rs", "        self.queue.push(t);\n        if let Some(w) = self.to_wake.take() {", "        self.queue.push(t);\n        log::trace!(\"pushed\");\n        if let Some(w) = self.to_wake.take() {"))
+ben("ben-join-state-seqcst-loads", ["C01", "C14"],
+    ("src/join.rs", "        !self.join.state.load(Ordering::Acquire)", "        !self.join.state.load(Ordering::SeqCst)"))
+ben("ben-spsc-release-via-fence", ["C03"],
+    ("may_queue/src/spsc.rs", "        self.tail.index.store(new_index, Ordering::Release);", "        std::sync::atomic::fence(Ordering::Release);\n        self.tail.index.store(new_index, Ordering::Relaxed);"))
+
+
+mut("revert-f9-cancel-leaves-timer", ["C18"], "taker/disarms-timer",
+    ("src/io/sys/unix/cancel.rs", "                #[cfg(feature = \"io_timeout\")]\n                let co = match e.del_timer(co) {\n                    Some(co) => co,\n                    None => return Some(Ok(())), // scheduled by the selector thread\n                };\n", ""))
+mut("revert-f8-park-deadline-recheck", ["C02"], "deadline-recheck",
+    ("src/park.rs", "        if deadline.is_some_and(|t| now() >= t) {\n            if let Some(mut co) = self.wait_co.take() {\n                set_co_para(&mut co, io::Error::new(ErrorKind::TimedOut, \"timeout\"));\n                return get_scheduler().schedule(co);\n            }\n        }\n", "        let _ = (deadline, now(), io::ErrorKind::TimedOut, set_co_para as fn(&mut CoroutineImpl, io::Error));\n"))
+mut("revert-f8-io-raw-store", ["C18"], "arm-publish/uses-store-co:SocketRead",
+    ("src/io/sys/unix/net/socket_read.rs", "        io_data.store_co(co);", "        io_data.co.store(co);"))
+mut("revert-f11-remove-on-foreign-thread", ["C18"], "del-timer/remove-only-on-owner-thread",
+    ("src/io/sys/unix/mod.rs", "        if crate::scheduler::WORKER_ID.get() == id {\n            // it's safe to remove the timer", "        if id < usize::MAX {\n            // it's safe to remove the timer"))
+mut("revert-f11-fast-schedule-direct-remove", ["C18", "C19"], "entry-remove-callers",
+    ("src/io/sys/unix/mod.rs", "        #[cfg(feature = \"io_timeout\")]\n        let co = match self.del_timer(co) {\n            Some(co) => co,\n            None => return, // passed to the selector thread together with the timer\n        };\n\n        // run the coroutine",
+     "        #[cfg(feature = \"io_timeout\")]\n        if let Some(h) = self.timer.borrow_mut().take() {\n            unsafe { h.with_mut_data(|value| value.data.event_data = std::ptr::null_mut()) };\n            h.remove();\n        }\n\n        // run the coroutine"))
 
 MUTANTS = M
 BENIGN = B
